@@ -19,7 +19,7 @@ PROPS = {
             {"name": "trees", "pkg": "./c01", "run": "^TestRapidTrees$", "rapid": T(10000, 100000), "shards": T(1, 16)},
             {"name": "exhaustive", "pkg": "./c01", "run": "^(TestEmptyShapes|TestRegress)$"},
             {"name": "sigma", "pkg": "./c01", "run": "^TestSigmaExhaustive$", "shards": T(1, 16)},
-            {"name": "fuzz", "pkg": "./c01", "run": "^FuzzPrograms$", "fuzz": "^FuzzPrograms$", "fuzztime": T(0, 180), "thorough_only": True, "timeout": T(600, 900)},
+            {"name": "fuzz", "pkg": "./c01", "run": "^FuzzPrograms$", "fuzz": "^FuzzPrograms$", "fuzztime": T(0, 180), "thorough_only": True, "timeout": T(600, 3600)},
         ],
         "assumptions": LP_ASSUME,
         "claim": {"ref": "DESIGN.md §5 C01", "technique": "property-based testing (rapid) over a logging-program language + exhaustive class-alphabet strings and empty shapes; oracle: independent strict RFC 8259/UTF-8/single-line validator",
@@ -105,7 +105,7 @@ PROPS["C17"] = {
         {"name": "cuts", "pkg": "./c17", "tags": "binary_log verif", "run": "^(TestRapidCutPoints|TestRegress)$", "rapid": T(600, 3000), "shards": T(2, 16), "rlimit_as": 12 * GiB},
         {"name": "concurrent", "pkg": "./c17", "tags": "binary_log verif", "run": "^TestRapidConcurrentDecode$", "rapid": T(300, 6000), "shards": T(1, 8)},
         {"name": "concurrent-race", "pkg": "./c17", "tags": "binary_log verif", "race": True, "run": "^TestRapidConcurrentDecode$", "rapid": T(100, 2000), "shards": T(1, 8)},
-        {"name": "fuzz", "pkg": "./c17", "tags": "binary_log verif", "run": "^FuzzDecoder$", "fuzz": "^FuzzDecoder$", "fuzztime": T(0, 240), "thorough_only": True, "rlimit_as": 0, "timeout": T(600, 1200)},
+        {"name": "fuzz", "pkg": "./c17", "tags": "binary_log verif", "run": "^FuzzDecoder$", "fuzz": "^FuzzDecoder$", "fuzztime": T(0, 240), "thorough_only": True, "rlimit_as": 0, "timeout": T(600, 3600)},
     ],
     "assumptions": ["allocation is measured per call with runtime/metrics as a screen and runtime.ReadMemStats (exact) when the screen exceeds the bound; bound = 64 KiB + 64 x len(input), deliberately loose",
                     "valid streams are produced by the binary_log logger itself from generated logging programs",
